@@ -1,12 +1,22 @@
 """C13 - exclude_paths / exclude_regex_paths / include_paths act as pure filters.
 
-proof:           coq/theories/Filter/{FilterModel,FilterProofs}.v, Properties/C13.v
+proof:           coq/theories/Filter/*.v, Properties/C13.v
 correspondence:  generated pairs x path filters built from every position of either
                  input (literal singletons / sets of <= 3, anchored and sibling-class
-                 regexes, include_paths, un-rooted spellings) x positional / default
+                 regexes, SETS of regexes mixing plain strings and pre-compiled patterns
+                 with flags, literal + regex together, include_paths, un-rooted spellings)
+                 x the object-dependent branches of _skip_this (exclude_types, the four
+                 callbacks) alone and combined with a path option x every accepted
+                 argument shape (list / tuple / set / bare item) x positional / default
                  mode x threshold 0 / 0.33 / 0.9: the full tree-view observable of the
-                 filtered run against the model `run_filtered` (the options stay
-                 strings in the model; the `re` engine enters as a truth table).
+                 filtered run against the model `run_full` (the options stay strings in
+                 the model; the `re` engine and the callbacks enter as truth tables).
+                 Pairs on the boundaries of the input-level guards (shortcut ratio at the
+                 threshold +-1 key; one container among atoms in a sequence; sibling keys
+                 differing only in case).  The exact characterisation
+                 C13_exclude_threshold_exact is OBSERVED: in positional mode the filter
+                 equation holds on the implementation iff the guard (re-stated on Python
+                 values) holds - a disagreement is a correspondence break.
 direct oracle:   set algebra on the implementation's own results, no model:
                  (a) tree view: filtered == [e in unrestricted | no prefix of e.path excluded]
                      resp. [e | e.path at/below/above an included path]
@@ -26,7 +36,7 @@ from harness import core, values as V, diffcommon as D
 
 THEOREM_FILE = "Properties/C13.v"
 COQCHK = ["Properties.C13"]
-RULE = ("a case = (t1, t2, filter option, mode, threshold); t1 random nested value (depth<=3, width<=4, dict keys of every "
+RULE = ("a case = (t1, t2, filter option(s) incl. object-dependent options and argument shapes, mode, threshold); t1 random nested value (depth<=3, width<=4, dict keys of every "
         "hashable atom type except bytes), t2 an edit script of 1-3 edits of t1 or an independent value; the filter paths are "
         "drawn from the positions of t1 and t2 (every depth, keys and indexes); non-trivial = the filter removed at least one "
         "entry of the unrestricted result and kept at least one; distinct = distinct (t1, t2, options)")
@@ -37,7 +47,10 @@ TRUSTED = ["the `re` engine is an oracle: the harness evaluates the patterns on 
            "per compared pair of sets (diffh / run_filtered_h, compared in every case); the table shared by the whole run is not threaded "
            "through the model: hit cases where an atom is a member of two compared pairs, and members dropped by include_paths "
            "(startswith test), are kept out of the correspondence, counted, and judged by the direct oracle only (known finding K13c)",
-           "exclude_types / exclude_obj_callback / include_obj_callback branches of _skip_this are absent from the model"]
+           "exclude_types / exclude_obj_callback(_strict) / include_obj_callback(_strict) ARE in the model (Filter/FilterModelV.v, run_full); "
+           "callbacks are oracles value -> bool: the generated callbacks ignore their path argument and answer False on notpresent, "
+           "the model gets their truth table over every sub-value occurrence of the two inputs; the DeepHash side of exclude_types / "
+           "exclude_obj_callback on set members is not modelled separately (a member dropped there is also dropped by the report-side test)"]
 ASSUMPTIONS = ["inputs without cycles (a container referenced from several positions is generated on purpose: the result must be that of the unshared value), no bytes dict keys (the path printer raises on them)",
                "no two ==-equal set members of different type, no set member str containing ':' or equal to 'NONE' (C06/C07 findings)"]
 
@@ -237,16 +250,36 @@ class Spec:
 # running the implementation
 # --------------------------------------------------------------------------
 
+SHAPES = ("list", "list", "tuple", "set", "bare")
+
+
+def shaped(items, shape):
+    """every accepted shape of a path / regex / type argument: list, tuple, set, or the bare item when there is one"""
+    items = list(items)
+    if shape == "bare" and len(items) == 1:
+        return items[0]
+    if shape == "tuple":
+        return tuple(items)
+    if shape == "set":
+        try:
+            return set(items)
+        except TypeError:
+            return items
+    return items
+
+
 def dd_kwargs(opt):
     kw = dict(zip_ordered_iterables=opt["zip"], threshold_to_diff_deeper=opt["thr"])
+    sh = opt.get("shape") or {}
     if opt.get("ex"):
-        kw["exclude_paths"] = list(opt["ex"])
+        kw["exclude_paths"] = shaped(opt["ex"], sh.get("ex"))
     if opt.get("rx"):
-        kw["exclude_regex_paths"] = [r if isinstance(r, str) else crx(r) for r in opt["rx"]]
+        rs = [r if isinstance(r, str) else crx(r) for r in opt["rx"]]
+        kw["exclude_regex_paths"] = shaped(rs, sh.get("rx") if sh.get("rx") != "set" else "tuple")   # order matters to a merge
     if opt.get("inc"):
-        kw["include_paths"] = list(opt["inc"])
+        kw["include_paths"] = shaped(opt["inc"], sh.get("inc"))
     if opt.get("ty"):
-        kw["exclude_types"] = [TYPES[n][0] for n in opt["ty"]]
+        kw["exclude_types"] = shaped([TYPES[n][0] for n in opt["ty"]], sh.get("ty") if sh.get("ty") != "bare" else "list")
     for k, name in CB_ARGS.items():
         if opt.get(k):
             kw[name] = make_cb(opt[k])
@@ -460,21 +493,58 @@ def analyse(case):
     return t1, t2, opt, P, spec
 
 
+def flip_positions(t1, t2, thr, keepkey, exclude_only=False):
+    """the dict-vs-dict positions whose whole-dict shortcut is decided differently on the filtered key sets"""
+    out = []
+    if not thr:
+        return out
+    for p, d1, d2 in dict_pairs(t1, t2):
+        k1 = [k for k in d1 if not private(k)]
+        k2 = [k for k in d2 if not private(k)]
+        inter = [k for k in k2 if k in d1 and not private(k)]
+        union = k2 + [k for k in k1 if k not in d2]
+        full = shortcut(len(inter), len(union), thr)
+        kept = [k for k in union if keepkey(p + [["k", V.canon_atom(k)]])]
+        kinter = [k for k in inter if keepkey(p + [["k", V.canon_atom(k)]])]
+        # exclude_paths leave the intersection alone and shrink the union; include_paths shrink both
+        variants = ((len(inter), len(kept)),) if exclude_only else ((len(inter), len(kept)), (len(kinter), len(kept)))
+        if any(shortcut(a, b, thr) != full for a, b in variants):
+            out.append(p)
+    return out
+
+
+def tree_clause(case):
+    """the failing clause is the tree-view filter equation (not: text view, modified inputs, an exception)"""
+    return ("extra" in case and "missing" in case and case.get("view") != "text" and "error" not in case)
+
+
 def m_threshold(case):
-    """K13a: threshold_to_diff_deeper > 0 and the filter changes a whole-dict shortcut"""
+    """K13a: threshold_to_diff_deeper > 0, the failing clause is the tree-view equation (or the independence
+    variant), the filter flips the whole-dict shortcut of some compared dict AND every wrong entry lies at or
+    below such a dict (its own values_changed, or what is reported instead)"""
     t1, t2, opt, P, spec = analyse(case)
     if not opt["thr"]:
         return False
     if opt.get("rx") and not opt.get("ex") and not opt.get("inc"):
         return False          # regex exclusion never touches the union
-    if threshold_sensitive(t1, t2, opt["thr"], spec.keep):
-        return True
     if "t1b" in case:        # independence variant: the two variants decide differently
         t1b, t2b = pyval(case["t1b"]), pyval(case["t2b"])
         specb = Spec(all_positions(t1b, t2b), opt.get("ex", ()), opt.get("rx", ()), opt.get("inc", ()))
-        return (threshold_sensitive(t1b, t2b, opt["thr"], specb.keep) or
+        return (threshold_sensitive(t1, t2, opt["thr"], spec.keep) or threshold_sensitive(t1b, t2b, opt["thr"], specb.keep) or
                 shortcut_profile(t1, t2, opt["thr"], spec) != shortcut_profile(t1b, t2b, opt["thr"], specb))
-    return False
+    if not tree_clause(case):
+        return False
+    only_ex = not opt.get("inc")
+    flips = flip_positions(t1, t2, opt["thr"], spec.keep, exclude_only=only_ex)
+    wrong = [m[1] for m in case["extra"] + case["missing"]]
+    if not flips or not wrong:
+        return False
+    if only_ex:
+        # the finding predicts the direction (C13_exclude_threshold_monotone): the unrestricted run reports the whole
+        # dictionary at the flip position, the filtered run goes deeper - never the other way round
+        lost = [m[1] for m in case["missing"] if m[0] == "values_changed"]
+        return all(any(is_prefix(f, w) and f in lost for f in flips) for w in wrong)
+    return all(any(is_prefix(f, w) for f in flips) for w in wrong)
 
 
 def shortcut_profile(t1, t2, thr, spec):
@@ -499,17 +569,29 @@ def m_include_key_format(case):
     printer (a non-str dict key, or a str key containing a single quote) and the
     failure consists of MISSING entries at / below / above such a path"""
     t1, t2, opt, P, spec = analyse(case)
-    if not opt.get("inc") or case.get("view") == "text":
+    if not opt.get("inc") or not tree_clause(case):
         return False
     ns = [q for q in spec.inc_paths if not all(simple_str_key(e) for e in q)]
     missing = [m[1] for m in case.get("missing", [])]
+    extra = [m[1] for m in case.get("extra", [])]
+    # nothing may be reported that should not be - except what K13d explains when exclude_paths are given too
+    if extra and not (opt.get("ex") and all(any(is_prefix(q, p) for q in spec.ex_paths) for p in extra)):
+        return False
     return bool(ns) and bool(missing) and all(related_to(m, ns) for m in missing)
 
 
 def m_set_member(case):
-    """K13c: the option hits <set path>[i] inside DeepHash"""
+    """K13c: the option hits <set path>[i] inside DeepHash, the failing clause is the tree-view equation (or the
+    independence variant) and every wrong entry is a set item"""
     t1, t2, opt, P, spec = analyse(case)
-    return set_member_hit(t1, t2, opt)
+    if not set_member_hit(t1, t2, opt):
+        return False
+    if "t1b" in case:
+        return True
+    if not tree_clause(case):
+        return False
+    wrong = case["extra"] + case["missing"]
+    return bool(wrong) and all(m[0] in ("set_item_added", "set_item_removed") for m in wrong)
 
 
 def m_include_substring(case):
@@ -517,7 +599,7 @@ def m_include_substring(case):
     sequence) to every include path but whose rendered path contains an include
     string or is contained in one"""
     t1, t2, opt, P, spec = analyse(case)
-    if not opt.get("inc") or case.get("view") == "text":
+    if not opt.get("inc") or not tree_clause(case) or case.get("missing"):
         return False
     incs = set(s for a in opt["inc"] for s in rooted(a))
     extra = [m[1] for m in case.get("extra", [])]
@@ -536,20 +618,48 @@ def m_exclude_under_include(case):
     or below an excluded path that is not itself an include string but contains
     one / is contained in one"""
     t1, t2, opt, P, spec = analyse(case)
-    if not (opt.get("ex") and opt.get("inc")) or case.get("view") == "text":
+    if not (opt.get("ex") and opt.get("inc")) or not tree_clause(case):
         return False
     incs = set(s for a in opt["inc"] for s in rooted(a))
     bad = [q for q in spec.ex_paths if render(q) not in incs and any(i in render(q) or render(q) in i for i in incs)]
     extra = [m[1] for m in case.get("extra", [])]
+    # nothing may be missing - except what K10 explains (an include path that the key filter mis-spells)
+    ns = [q for q in spec.inc_paths if not all(simple_str_key(e) for e in q)]
+    missing = [m[1] for m in case.get("missing", [])]
+    if missing and not (ns and all(related_to(m, ns) for m in missing)):
+        return False
     return bool(extra) and all(any(is_prefix(q, p) for q in bad) for p in extra)
+
+
+def alias_norm(p):
+    """numeric / bool dict keys identified up to == (1 / True / 1.0)"""
+    out = []
+    for tag, x in p:
+        if tag == "k" and isinstance(D.uncanon_atom(x), (bool, int, float)):
+            out.append(["k", ["num", float(D.uncanon_atom(x))]])
+        else:
+            out.append([tag, x])
+    return out
 
 
 def m_alias_key(case):
     """K13e: the excluded path goes through a numeric / bool dict key whose ==-alias
-    of another type (1 / True / 1.0) is the spelling the other input uses at that place"""
+    of another type (1 / True / 1.0) is the spelling the other input uses at that place; the failing clause is
+    the independence variant, or the tree-view equation with every wrong entry at or below the ALIAS spelling
+    of an excluded path"""
     t1, t2, opt, P, spec = analyse(case)
-    if not opt.get("ex"):
+    if not opt.get("ex") or not alias_feature(case, t1, t2, spec):
         return False
+    if "t1b" in case:
+        return True
+    if not tree_clause(case):
+        return False
+    wrong = [m[1] for m in case["extra"] + case["missing"]]
+    exn = [alias_norm(q) for q in spec.ex_paths]
+    return bool(wrong) and all(any(is_prefix(q, alias_norm(w)) for q in exn) for w in wrong)
+
+
+def alias_feature(case, t1, t2, spec):
     for q in spec.ex_paths:
         for n, e in enumerate(q):
             if e[0] != "k":
@@ -744,9 +854,12 @@ def share_pair(rng, t1, t2):
         if not targets:
             continue
         q = rng.choice(targets)
-        plant_shared(t1, p, q)
-        plant_shared(t2, p, q)
-        return t1, t2, [p, q]
+        side = rng.choice(["both", "both", "t1", "t2"])      # also ONE side only: the rest of the pair is fresh
+        if side in ("both", "t1"):
+            plant_shared(t1, p, q)
+        if side in ("both", "t2"):
+            plant_shared(t2, p, q)
+        return t1, t2, [p, q, side]
     return None
 
 
@@ -767,8 +880,11 @@ def rebuild(case):
     t1, t2 = pyval(case["t1"]), pyval(case["t2"])
     sh = case.get("opt", {}).get("share")
     if sh:
-        plant_shared(t1, sh[0], sh[1])
-        plant_shared(t2, sh[0], sh[1])
+        side = sh[2] if len(sh) > 2 else "both"
+        if side in ("both", "t1"):
+            plant_shared(t1, sh[0], sh[1])
+        if side in ("both", "t2"):
+            plant_shared(t2, sh[0], sh[1])
     return t1, t2
 
 
@@ -971,6 +1087,7 @@ def gen_options(rng, t1, t2, P, n, hot=()):
                     opt["ex"] = [key]
                 else:
                     opt["inc"] = [key]
+        opt["shape"] = {k: rng.choice(SHAPES) for k in ("ex", "rx", "inc", "ty") if opt.get(k)}
         out.append(opt)
     return out
 
@@ -1188,7 +1305,7 @@ def _work(args):
         r = rng.random()
         if r < 0.3:
             t1, t2 = gen_pair_records(rng)
-        elif r < 0.42:
+        elif r < 0.48:
             t1, t2 = gen_boundary_pair(rng)
             cnt("pairs_on_guard_boundaries")
             if D.set_alias(t1, t2) or len(all_positions(t1, t2)) < 3:
